@@ -216,12 +216,17 @@ def run(tier, seed):
     dl = [(n, corp[n]) for n in sorted(corp)] + [("pool:" + k, v.encode()) for k, v in docs.POOL.items()]
     # definitions whose tail is split into words by the writers (destination, title, attributes with and without values)
     dl += [("x:linkdef-words", b"[foo]: /url a b c d e f g\n\n[foo] ![i][foo]\n"), ("x:linkdef-attrs", b'[r]: http://x.y/ "T" class=c width=3px height=4px x\n\ntext [r] ![i][r]\n'),
-           ("x:linkdef-angle", b"[a]: <http://x.y/z> 'single' k=v\n[b]: u (paren title) k\n\n[a] [b]\n"), ("x:imgattr", b'![i](p.png "t" width=3px  height=4px k)\n')]
+           ("x:linkdef-angle", b"[a]: <http://x.y/z> 'single' k=v\n[b]: u (paren title) k\n\n[a] [b]\n"), ("x:imgattr", b'![i](p.png "t" width=3px  height=4px k)\n'),
+           # links whose text starts with a two-character opener: the writers widen a token to print it
+           ("x:openerlink", b"[^foo](url)\n\ntext [^foo](url) and [#c](u) [%v](u) [>a](u) [?g](u) more\n\n[^r][l] ![#i](p.png)\n\n[l]: /d\n")]
     gen = [("seq", c02.text_of(table, s)) for s in seqs] + [("seq3", c02.text_of(table, s)) for s in (rnd.sample(seqs3, 1500 if tier == "quick" else 12000))] + [("sim", c02.text_of(table, s)) for s in sim]
     cases_ = []
     for name, b in dl:
         for x in (EXTS[:4] if tier == "quick" else EXTS):
             cases_.append((name, b, x, FMTS if tier == "thorough" else FMTS[:4]))
+        if name.startswith("x:"):
+            for x in (0, E["SMART"] | E["CRITIC"]):            # (without the notes extension '[^x]', '[#x]', '[?x]', '[>x]' are plain brackets with a two-character opener)
+                cases_.append((name, b, x, FMTS[:3]))
     for name, b in gen:
         cases_.append((name, b, rnd.choice(EXTS[:2]), [rnd.choice(FMTS)]))
     # outlines parsed with EXT_PARSE_OPML: the engine replaces its text by the imported document while parsing -- the tree must describe THAT text
@@ -240,6 +245,11 @@ def run(tier, seed):
             s.append(line("e_new", 0, "d%d" % j, x, 0)); s.append(line("e_parse", 0)); s.append(line("e_tree", 0, "parse"))
             for f in fmts:
                 s.append(line("e_conv", 0, docs.FMT[f])); s.append(line("e_tree", 0, "export:" + f))
+            if not name.startswith(("seq", "sim", "soup", "opml")):
+                # one parse, exported again and again (mmd_engine_export_token_tree): what a writer changes in the tree must not accumulate
+                for f in (fmts[0], fmts[0], fmts[-1]):
+                    s.append(line("e_export", 0, docs.FMT[f]))
+                s.append(line("e_tree", 0, "reexport:" + fmts[-1]))
             if name.startswith("pool:"):
                 # packaged formats go through mmd_engine_convert_to_data on the same engine
                 for f in ("bundlezip", "epub", "odt"):
